@@ -146,19 +146,31 @@ class _TestConnection:
 
 @contract("bromelia.statemachine.WaitConnAck.run", prop="C06", name="tick")
 class _WaitConnAckRun:
-    args = {"self": state_obj(SM.WaitConnAck, T.NoneS, mode=T.Const("CLIENT"), recv=T.Sync("queue"),
+    args = {"self": state_obj(SM.WaitConnAck, T.NoneS, mode=T.Const("CLIENT"), recv=recv_cases(),
                               send=T.Sync("queue", extra=True),
                               transport_shape=T.OneOf(T.NoneS, transport()))}
     setup_spec = snap
 
     def ensures_connect_ack_sends_the_cer(self):
-        a, log = self.association, event_log()
+        """connect part of the tick, then at most one received message is looked at: only a valid CER matters
+        (simultaneous open: the election states are stubs in this code base, only their names are reached)"""
+        a, log, h = self.association, event_log(), head(self)
+        k = kinds(log)
         if a.transport is None:
-            return self.next_state == WAIT_CONN_ACK and len(log) == 0
-        ack = kinds(log) == ["test_connection", "put", "flush"] and sent(log)[0] is a.base.cer \
-            and self.next_state == WAIT_I_CEA
-        nack = kinds(log) == ["test_connection"] and self.next_state == CLOSED
-        return ack or nack
+            connect, after = k[:0], WAIT_CONN_ACK
+        elif k[:3] == ["test_connection", "put", "flush"] and sent(log)[0] is a.base.cer:
+            connect, after = k[:3], WAIT_I_CEA
+        elif k[:1] == ["test_connection"]:
+            connect, after = k[:1], CLOSED
+        else:
+            return False
+        rest = k[len(connect):]
+        if h is None:
+            return rest == [] and self.next_state == after and untouched_queue(self)
+        if is_req(h) and cmd(h) == CMD_CE:
+            return consumed_head(self) and rest == ["validate"] \
+                and (self.next_state == WAIT_CONN_ACK_ELECT or self.next_state == after)
+        return consumed_head(self) and rest == [] and self.next_state == after
 
     def ensures_name_and_application_queue(self):
         return self.name == WAIT_CONN_ACK and nothing_for_the_application(self)
@@ -265,12 +277,21 @@ def handled_base(h):
 
 
 def addressed_here(a, h):
-    if not is_req(h) or len(h._avps) == 0:
+    """answers always; a request with a Destination-Host must name the local host, one with only a
+    Destination-Realm the local realm, one with neither is for local consumption"""
+    if not is_req(h):
         return True
-    x = h._avps[0]
-    if is_instance_of(x, DestinationHostAVP):
-        return x._data == a.connection.local_node.host_name.encode("utf-8")
-    return x._data == a.connection.local_node.realm.encode("utf-8")
+    host, realm = None, None
+    for x in h._avps:
+        if is_instance_of(x, DestinationHostAVP):
+            host = x
+        elif is_instance_of(x, DestinationRealmAVP):
+            realm = x
+    if host is not None:
+        return host._data == a.connection.local_node.host_name.encode("utf-8")
+    if realm is not None:
+        return realm._data == a.connection.local_node.realm.encode("utf-8")
+    return True
 
 
 def snap_open(self):
